@@ -448,6 +448,12 @@ void t_recv_custom(Src &s, Case &c)
     a.c_start = fresh();
     a.c_stop = same ? a.c_start : fresh();
     a.c_stub = fresh();
+    if ((a.start + a.stub + a.c_stub) % 4 == 0)
+    {
+        // the classic byte-stuffing convention: the escape byte escapes itself by doubling (DLE DLE)
+        a.c_stub = a.stub;
+        c.label("custom_doubled_escape");
+    }
     g_custom = a;
     c.log("context {start %02x stop %02x stub %02x codes %02x %02x %02x} ", a.start, a.stop, a.stub, a.c_start, a.c_stop, a.c_stub);
     c.label(same ? "custom_same_markers" : "custom_distinct_markers");
